@@ -39,6 +39,7 @@ THEOREMS = [
     "AiuVerif.C02.no_scratch_ts_dev",
     "AiuVerif.C02.no_scratch_jobhash",
     "AiuVerif.C02.no_scratch_helperF",
+    "AiuVerif.C02.no_nonslice_dur",
     "AiuVerif.C02.no_scratch_counter_dur",
     "AiuVerif.C02.no_scratch_ts_cycles",
     "AiuVerif.C02.overlap_tid_only_budget_error",
@@ -206,6 +207,7 @@ def e2e_job(job):
                               for e in evs) for k in SCRATCH}
                 has["helperF"] = any(e.get("ph") == "F" for e in evs)
                 has["counterDur"] = any(e.get("ph") == "C" and "dur" in e for e in evs)
+                has["nonSliceDur"] = any(e.get("ph") in ("C", "s", "f", "t", "M", "i", "b", "e") and "dur" in e for e in evs)
                 st.append({"name": f[len("out.json_"):][3:], "has": has})
             res["stages"] = st
         return res
@@ -301,7 +303,7 @@ def run(ctx: Ctx):
         ctx.case_done(case, key=json.dumps(case, sort_keys=True, default=str),
                       nontrivial=any(k in res["kinds"] for k in ("C", "s", "M")))
         if res.get("stages") and not ctx.search_mode:
-            prev = {k: (k == "jobhash") for k in list(SCRATCH) + ["helperF", "counterDur"]}
+            prev = {k: (k == "jobhash") for k in list(SCRATCH) + ["helperF", "counterDur", "nonSliceDur"]}
             for st in res["stages"]:
                 for k, now in st["has"].items():
                     eff_lines.append(f"c02 effect {k} {st['name']}")
